@@ -236,7 +236,7 @@ func TestC01(t *testing.T) {
 	rec.Assume("stream ids are unique per client while in flight", "a client connection closed by the proxy ends the obligation for its requests (property: 'as long as the client stays connected')",
 		"'never two' is decided after an OPTIONS fence and 8ms of socket silence: a duplicate arriving later than that would be missed (never a false alarm)")
 	check := c01Check(rec)
-	runProp(t, rec, "storm", perShard(evid.Pick(700, 24000)), func(rt *rapid.T) stormCase {
+	runProp(t, rec, "storm", perShard(evid.Pick(1500, 60000)), func(rt *rapid.T) stormCase {
 		c := c01Gen(rt)
 		labels, nreq, retries, parks, drops := stormClassify(&c)
 		key := ""
